@@ -14,6 +14,8 @@ from exec import Ptr, NULL, ExecError, UnwindBound, pc_term, merge_paths
 from spec import api as A
 import c15
 
+OTHER_CAPS = json.load(open(os.path.join(os.path.dirname(os.path.abspath(__file__)), '..', 'spec', 'capabilities.json')))
+
 HERE = os.path.dirname(os.path.abspath(__file__))
 
 
@@ -237,7 +239,18 @@ def purity_replay(chk, scalar, name, meth, sig, why):
             for pn in pnames:
                 lines.append('after.push_back(masa_get_param<Scalar>("%s"));' % pn)
             lines.append('bool same=true; for(size_t i=0;i<before.size();i++) same = same && (before[i]==after[i]); printf("\\nR params_unchanged %d\\n",(int)same);')
-            lines.append('%s<Scalar>(%s); masa_init<Scalar>("b","%s"); masa_select_mms<Scalar>("a");' % (api, a2, name))
+            # ... every OTHER documented evaluator of the solution at another point (one evaluator may leave something another one reads)
+            others = []
+            for cap in OTHER_CAPS.get(name, []):
+                m2, s2 = cap[:-1].split('(')
+                if 'F' in s2:
+                    continue
+                try:
+                    api2 = pde.api_name(m2)
+                except KeyError:
+                    continue
+                others.append('{ volatile Scalar o_ = %s<Scalar>(%s); (void)o_; }' % (api2, ','.join('(Scalar)0.81' if q == 'S' else '2' for q in s2.split(',')) if s2 else ''))
+            lines.append('%s<Scalar>(%s); %s masa_init<Scalar>("b","%s"); masa_select_mms<Scalar>("a");' % (api, a2, ' '.join(others[:40]), name))
             lines.append('Scalar r2 = %s<Scalar>(%s); printf("R same_value %%d\\n", (int)(r1==r2 || (r1!=r1 && r2!=r2)));' % (api, a1))
             # fresh handle, same parameters, no history
             lines.append('masa_init<Scalar>("c","%s"); %s' % (name, setp))
